@@ -862,4 +862,65 @@ pub(crate) mod verif_pc {
         assert!(s.outgoing_local_inputs.is_empty(), "C11: nothing stranded in the outgoing buffer");
     }
 
+
+    /// register_local_inputs with two local players (no endpoint objects, so nothing is sent): each
+    /// player's pending input reaches its own queue and newest-frame bookkeeping; when one player's
+    /// submission is dropped (its delay was lowered and its queue is still ahead) the OTHER player's
+    /// input is registered all the same - whichever of the two comes first in the registry's iteration
+    /// order (C17) - and the dropped player's bookkeeping is untouched.
+    fn register_two_locals(lagging_first: bool) {
+        let mut reg = PlayerRegistry::<CfgRL> { handles: HashMap::new(), remotes: HashMap::new(), spectators: HashMap::new() };
+        // insertion order = iteration order of the model: both orders are instantiated
+        let a: usize = if lagging_first { 1 } else { 0 }; // the player in steady state
+        let b: usize = 1 - a; // the player whose queue is one frame ahead
+        reg.handles.insert(b, PlayerType::Local);
+        reg.handles.insert(a, PlayerType::Local);
+        reg.handles.insert(2, PlayerType::Remote(9));
+        let mut s = P2PSession::<CfgRL>::new(3, 2, Box::new(NullSocket), reg, false, DesyncDetection::Off, 0, 60);
+        s.state = SessionState::Running;
+        let c: Frame = 5;
+        let va: [u8; crate::input_queue::verif_q::RING] = kani::any();
+        let vb: [u8; crate::input_queue::verif_q::RING] = kani::any();
+        let vr: [u8; crate::input_queue::verif_q::RING] = kani::any();
+        let qa = queue_with(c - 1, 2, &va);
+        let qb = crate::input_queue::verif_q::build_lagging::<CfgRL>(c, 2, &vb);
+        if a == 0 {
+            vs::install3(&mut s.sync_layer, c, 3, 4, qa, qb, queue_with(c - 1, 2, &vr));
+        } else {
+            vs::install3(&mut s.sync_layer, c, 3, 4, qb, qa, queue_with(c - 1, 2, &vr));
+        }
+        s.local_connect_status[a].last_frame = c - 1;
+        s.local_connect_status[b].last_frame = c;
+        s.local_connect_status[2].last_frame = c - 1;
+        let ia: u8 = kani::any();
+        let ib: u8 = kani::any();
+        assert!(s.add_local_input(a, ia).is_ok() && s.add_local_input(b, ib).is_ok());
+        s.register_local_inputs();
+        let qa2 = vs::queue(&s.sync_layer, a);
+        let qb2 = vs::queue(&s.sync_layer, b);
+        assert!(crate::input_queue::verif_q::la(qa2) == c, "C17/C11: the other local player's input is registered");
+        assert!(crate::input_queue::verif_q::slot(qa2, c) == (c, ia));
+        assert!(s.local_connect_status[a].last_frame == c);
+        assert!(crate::input_queue::verif_q::la(qb2) == c && crate::input_queue::verif_q::slot(qb2, c) == (c, vb[c as usize % crate::input_queue::verif_q::RING]), "the lagging player's submission is dropped");
+        assert!(s.local_connect_status[b].last_frame == c);
+        assert!(s.outgoing_local_inputs.is_empty());
+        kani::cover!(true, "reached");
+        core::mem::forget(s);
+    }
+
+    /// (instance: the lagging player comes first in the registry's iteration order)
+    #[kani::proof]
+    #[kani::unwind(6)]
+    #[kani::stub(alloc::fmt::format, stub_format)]
+    fn pc_register_two_locals_lagging_first() {
+        register_two_locals(true);
+    }
+
+    /// (instance: the lagging player comes second in the registry's iteration order)
+    #[kani::proof]
+    #[kani::unwind(6)]
+    #[kani::stub(alloc::fmt::format, stub_format)]
+    fn pc_register_two_locals_lagging_second() {
+        register_two_locals(false);
+    }
 }
